@@ -28,6 +28,13 @@ def special_grammars(ctx):
     add("braces", HDR + "S <- 'a' { if p.N > 0 { p.N = func() int { return 1 }() } } !.\n")
     add("quotes", HDR + "S <- ['] [\"] '\"' \"'\" ![\\]] . !.\n")
     add("deep", HDR + "S <- " + "(" * 40 + "'a'" + ")?" * 40 + " !.\n")
+    # actions that declare local variables (valid Go inside the block the generator gives each action), in
+    # repetitions, twice in one sequence, in switch cases, and an empty action after a trailing option
+    add("locals", HDR + "S <- (',' N { n := p.N; p.N = n + 1 })* A B C !.\n"
+        "A <- 'a' { n := 1; p.N += n } 'b' { n := 2; p.N += n }\n"
+        "B <- ('x' { v := p.N; _ = v } / 'y' 'k'? { } / 'z' { v := 2; _ = v })?\n"
+        "C <- (<'c'+> { v := len(p.T); _ = v } / 'd' { var v int; _ = v } / 'e')*\n"
+        "N <- [0-9]+ { d := 0; _ = d }\n")
     add("cap", HDR + "S <- <<'a'> <'b'*>> <> !.\n", HDR + "S <- <<'a'> <'b'*>> <> !.\n")
     return gs
 
@@ -52,6 +59,21 @@ def check(ctx):
                 why = "the generated file is not in canonical gofmt form"
             if why:
                 problems.append((why, {"grammar": gi["text_noast"] if B.OPTSETS[o]["noast"] else gi["text"], "options": B.OPTSETS[o], "why": why}))
+    # the label / block / variable skeleton of every rule function vs Model/Emit.v (structural tie, needs no input)
+    skel_cmp = 0
+    for gid, gi in data["grammars"].items():
+        for o, oi in gi["opts"].items():
+            if oi.get("emit") is None or oi.get("skel") is None or oi.get("conv_err"):
+                continue
+            skel_cmp += 1
+            if oi["emit"] != oi["skel"]:
+                ms, ks = oi["emit"].split(";"), oi["skel"].split(";")
+                k = next((i for i, (a, b) in enumerate(zip(ms, ks)) if a != b), min(len(ms), len(ks)))
+                nm = (oi.get("names") or [])[k] if k < len(oi.get("names") or []) else k
+                why = "the code emitted for rule %s has another label/block skeleton than Model/Emit.v: emitted %s, model %s" % (
+                    nm, (ks[k] if k < len(ks) else "-")[:150], (ms[k] if k < len(ms) else "-")[:150])
+                problems.append((why, {"grammar": gi["text_noast"] if B.OPTSETS[o]["noast"] else gi["text"], "options": B.OPTSETS[o], "why": why,
+                                       "broken": "correspondence Model/Emit.v ~ tree/peg.go compile"}))
     # dedicated streams
     bd = C.build_dir()
     gs = special_grammars(ctx)
@@ -61,7 +83,7 @@ def check(ctx):
         bt.generate().build()
         # the rule-constant type in the emitted file vs the model's choice from the tree length
         import re as _re
-        mlines, emitted = [], {}
+        mlines, emitted, skels = [], {}, {}
         for g in gs:
             for o in allopts:
                 it = bt.items[(g["id"], o)]
@@ -73,8 +95,32 @@ def check(ctx):
                     cid = "%s.%s" % (g["id"], o)
                     emitted[cid] = (m_.group(1) if m_ else None, tlen, g, o)
                     mlines.append("ruletype %s %d" % (cid, tlen))
+                    try:
+                        nodes = P.parse_dump(r["linked"])
+                        sexp, ptx, names, _ = P.linked_to_model(nodes)
+                        if "nilkey" not in sexp:
+                            from .. import emitskel
+                            sk = emitskel.skeletons(open(pth, encoding="utf-8", errors="replace").read())
+                            skels[cid] = (";".join(sk) if sk is not None else None, names, g, o)
+                            mlines.append("grammar %s %d %s" % (cid, ptx, sexp))
+                            mlines.append("emit %s %d %d %s" % (cid, 0 if B.OPTSETS[o]["noast"] else 1, 1 if B.OPTSETS[o]["inline"] else 0, P.undef_bits(nodes)))
+                    except P.ConvError:
+                        pass
         rc_, out_, err_ = C.run([B.Model().exe], input="\n".join(mlines) + "\n", timeout=120)
         for line in out_.split("\n"):
+            if line.startswith("emit "):
+                head, want = line.split(" :: ")
+                cid = head.split(" ")[1].rsplit("/", 1)[0]
+                got, names, g, o = skels.get(cid, (None, None, None, None))
+                if got is not None:
+                    skel_cmp += 1
+                    if got != want:
+                        ms, ks = want.split(";"), got.split(";")
+                        k = next((i for i, (a, b) in enumerate(zip(ms, ks)) if a != b), min(len(ms), len(ks)))
+                        why = "[%s] the code emitted for rule %s has another label/block skeleton than Model/Emit.v: emitted %s, model %s" % (
+                            g["id"], names[k] if k < len(names) else k, (ks[k] if k < len(ks) else "-")[:150], (ms[k] if k < len(ms) else "-")[:150])
+                        problems.append((why, {"grammar": g["text"][:2000], "stream": g["id"], "options": B.OPTSETS[o], "why": why,
+                                               "broken": "correspondence Model/Emit.v ~ tree/peg.go compile"}))
             if line.startswith("ruletype "):
                 head, want = line.split(" :: ")
                 cid = head.split(" ")[1]
@@ -103,6 +149,7 @@ def check(ctx):
     finally:
         bt.cleanup()
     rep, seen = 0, set()
+    problems.sort(key=lambda x: 1 if x[1].get("broken") else 0)       # failing inputs first, broken correspondence after
     for why, replay in problems:
         k = ctx.known("gen08:%s|%s" % (replay.get("stream", ""), json_key(replay["options"])))
         if k:
@@ -115,13 +162,14 @@ def check(ctx):
             continue
         seen.add(sig)
         rep += 1
-        ctx.violation(why, replay, found=True)
+        ctx.violation(why, replay, found=not replay.get("broken"))
     if broken and not ctx.violations:
         ctx.violation("proof obligation for C08 no longer checks: " + broken[0][:200], {"broken": broken}, found=False)
     ctx.coverage.update({
         "evaluations": files, "distinct_nontrivial": len(data["grammars"]) + len(gs),
         "rule": "every file generated for the shared batch (random/backtracking/switch-shaped/inline-shaped grammars x 8 option sets) plus dedicated streams (%s) x 8 option sets: go build (parse + type check + compile), gofmt -l; a file counts as non-trivial per distinct grammar" % ", ".join(g["id"] for g in gs),
         "problems": len(problems),
+        "skeletons_compared": skel_cmp,
         "samples": [{"stream": g["id"], "grammar": g["text"][:160]} for g in gs[1:4]],
     })
 
